@@ -203,12 +203,16 @@ pub enum AccessMode {
     DenyTyped,
     /// hook that keeps the default `check` (refuse anonymous) and records
     Default,
+    /// hook that does not override `check` at all (it inherits the trait's default) and records its typed hooks only
+    Inherited,
 }
 
 pub struct RecAccess {
     pub log: Log,
     pub mode: AccessMode,
 }
+
+pub struct InheritAccess(pub RecAccess);
 
 fn denied(msg: &'static str) -> S3Error {
     S3Error::with_message(S3ErrorCode::Custom("DeniedByHook".into()), msg)
@@ -219,7 +223,7 @@ impl RecAccess {
         let op = cx.s3_op().name().to_owned();
         let cred = cx.credentials().map(|c| c.access_key.clone());
         let allowed = match self.mode {
-            AccessMode::Allow | AccessMode::DenyTyped | AccessMode::None => true,
+            AccessMode::Allow | AccessMode::DenyTyped | AccessMode::None | AccessMode::Inherited => true,
             AccessMode::Deny => false,
             AccessMode::DenyOp(name) => op != name,
             AccessMode::Default => cred.is_some(),
@@ -245,6 +249,8 @@ pub enum RouteMode {
     Never,
     /// matches everything and overrides check_access to allow anonymous
     MatchAllOpen,
+    /// matches everything and does NOT override check_access (inherits the trait's default: refuse anonymous requests)
+    MatchAllInherited,
 }
 
 pub struct RecRoute {
@@ -257,7 +263,7 @@ impl S3Route for RecRoute {
     fn is_match(&self, _method: &Method, uri: &Uri, _headers: &HeaderMap, _ext: &mut http::Extensions) -> bool {
         let matched = match self.mode {
             RouteMode::None | RouteMode::Never => false,
-            RouteMode::MatchAll | RouteMode::MatchAllOpen => true,
+            RouteMode::MatchAll | RouteMode::MatchAllOpen | RouteMode::MatchAllInherited => true,
             RouteMode::MatchPrefix => uri.path().starts_with("/custom-route"),
         };
         self.log.lock().unwrap().push(Event::RouteMatch { matched });
@@ -281,6 +287,19 @@ impl S3Route for RecRoute {
             return Err(e);
         }
         Ok(S3Response::new(Body::from("custom-route-ok".to_owned())))
+    }
+}
+
+/// a route that inherits `check_access` from the trait
+pub struct InheritRoute(pub RecRoute);
+
+#[async_trait::async_trait]
+impl S3Route for InheritRoute {
+    fn is_match(&self, method: &Method, uri: &Uri, headers: &HeaderMap, ext: &mut http::Extensions) -> bool {
+        self.0.is_match(method, uri, headers, ext)
+    }
+    async fn call(&self, req: S3Request<Body>) -> S3Result<S3Response<Body>> {
+        self.0.call(req).await
     }
 }
 
@@ -322,10 +341,14 @@ impl SvcCfg {
         if let Some(keys) = &self.keys {
             b.set_auth(RecAuth { log: log.clone(), keys: keys.clone() });
         }
-        if self.access != AccessMode::None {
+        if self.access == AccessMode::Inherited {
+            b.set_access(InheritAccess(RecAccess { log: log.clone(), mode: self.access }));
+        } else if self.access != AccessMode::None {
             b.set_access(RecAccess { log: log.clone(), mode: self.access });
         }
-        if self.route != RouteMode::None {
+        if self.route == RouteMode::MatchAllInherited {
+            b.set_route(InheritRoute(RecRoute { log: log.clone(), mode: self.route }));
+        } else if self.route != RouteMode::None {
             b.set_route(RecRoute { log: log.clone(), mode: self.route });
         }
         match &self.host {
